@@ -182,6 +182,79 @@ def make_ob(tname, opc, op, ctx, fmt, hi, tier, lines=False):
               oracle="listing parsed back vs real instruction stream; stdout/stderr capture")
 
 
+def ext_ob(tname, opc, k, fmt, tier):
+    """operands that need EXTENDED_ARG prefixes: the operand printed in the listing must be the folded value of the
+    code bytes (computed arithmetically here, independently of xdis's own instruction stream)"""
+    vt = tuple(opc.version_tuple[:2])
+    word = vt >= (3, 6)
+    jf = _pick(opc, ["JUMP_FORWARD"])
+    ext = opc.opmap["EXTENDED_ARG"]
+    nb = (k + 1) if word else 2 * (k + 1)
+    # rendering the operand as text realises it (one path per value): each operand byte is a symbolic choice among
+    # four boundary values; the first byte is never 0 (the prefixes are really needed) and stays below 2^31
+    CH = [0, 1, 254, 255]
+    CH0 = [1, 2, 62, 63]
+    params = [("b%d" % i, (0, 3 if (word or i == 0) else 1)) for i in range(nb)]
+    if not word:
+        CH = [1, 255, 0, 254]     # two choices per byte for the four bytes of the 16-bit forms
+
+    def pre(**kw):
+        return True
+
+    def run(kw, tracing):
+        import xdis.bytecode as B
+        bs = [(CH0 if i == 0 else CH)[kw["b%d" % i]] for i in range(nb)]
+        items = []
+        if word:
+            for j in range(k):
+                items += [ext, bs[j]]
+            items += [jf, bs[k]]
+            arg = 0
+            for b in bs:
+                arg = arg * 256 + b
+        else:
+            for j in range(k):
+                items += [ext, bs[2 * j], bs[2 * j + 1]]
+            items += [jf, bs[2 * k], bs[2 * k + 1]]
+            arg = 0
+            for j in range(0, nb, 2):
+                arg = arg * 65536 + bs[j] + 256 * bs[j + 1]
+        code = make_code(opc, items, tracing)
+        text = B.Bytecode(code, opc).dis(asm_format=fmt)
+        return text, arg, len(items)
+
+    def judge(text, arg, n):
+        lines = [ln for ln in text.split("\n") if ln.strip() and "JUMP_FORWARD" in ln]
+        if len(lines) != 1:
+            return "JUMP_FORWARD appears %d times in %r" % (len(lines), text)
+        m = LINE_RE.match(lines[0])
+        rest = m.group(7)
+        scale = 2 if vt >= (3, 10) else 1
+        want_target = n + scale * arg
+        if fmt == "classic":
+            ok = (repr(arg) in rest.split()) or ("to %d" % want_target) in rest
+        else:
+            ok = ("to %d" % want_target) in rest or repr(arg) in rest.split()
+        return None if ok else "operand: listing line %r, the code bytes fold to operand %d (target %d)" % (lines[0], arg, want_target)
+
+    def body(**kw):
+        text, arg, n = run(kw, True)
+        d = judge(text, arg, n)
+        assert d is None, d
+
+    def replay(**kw):
+        try:
+            text, arg, n = run(kw, False)
+        except Exception as e:
+            return "Bytecode.dis(%s) raises %s: %s" % (fmt, type(e).__name__, str(e)[:120])
+        return judge(text, arg, n)
+
+    return Ob(id="C12.%s.ext%d.%s" % (tshort(tname), k, fmt), prop="C12", params=params, body=body, pre=pre, replay=replay, funcs=FUNCS,
+              opaque_repr=False, region="%s.%s" % (tshort(tname), fmt),
+              skeleton="table=%s [EXTENDED_ARG]*%d JUMP_FORWARD, format %s" % (tname, k, fmt), bound="each operand byte a symbolic choice among {0,1,254,255} (first byte {1,2,62,63})",
+              timeout=90 if tier == "quick" else 300, oracle="operand folded arithmetically from the code bytes")
+
+
 def disco_ob(tname, opc, fmt, tier):
     """whole-module entry point incl. header and nested code object queue"""
     vt = tuple(opc.version_tuple[:2])
@@ -273,6 +346,10 @@ def generate(tier, seed):
             if nm in opc.opmap:
                 for fmt in (("classic", "extended-bytes") if tier == "quick" else ("classic", "bytes", "extended", "extended-bytes")):
                     obs.append(make_ob(tname, opc, opc.opmap[nm], 6 if fmt.startswith("extended") else 0, fmt, 1, tier, lines=True))
+        if "EXTENDED_ARG" in opc.opmap and "JUMP_FORWARD" in opc.opmap:
+            for k in ((1, 2) if vt >= (3, 6) else (1,)):
+                for fmt in (("classic",) if tier == "quick" else ("classic", "bytes", "extended")):
+                    obs.append(ext_ob(tname, opc, k, fmt, tier))
         for fmt in ("classic", "xasm", "extended"):
             obs.append(disco_ob(tname, opc, fmt, tier))
     return obs
